@@ -49,6 +49,7 @@ class Translator:
         self.call_cb = call
         self.positive = positive
         self.symbols = {}
+        self.opaque_unknown = False
 
     def sym(self, name, **kw):
         if name not in self.symbols:
@@ -178,6 +179,9 @@ class Translator:
                 return LEN(args[0])
             if fn in _FUNCS1 and len(args) == 1:
                 return _FUNCS1[fn](args[0])
+        if self.opaque_unknown:
+            import re
+            return opaque("CALL_" + re.sub(r"\W", "_", name), *(args + list(kw.values())))
         raise Untranslatable("call %s" % norm_src(e))
 
 
